@@ -537,6 +537,8 @@ func (m *metaRun) doStep(st metaStep) {
 			opts = append(opts, core.WithRetainTags(true))
 		case "semver":
 			opts = append(opts, core.WithRetainSemverTags(true))
+		case "both":
+			opts = append(opts, core.WithRetainTags(true), core.WithRetainSemverTags(true))
 		}
 		opts = append(opts, e.listOpts()...)
 		if err := core.RepoSquash(stores, st.Repo, opts...); err != nil {
